@@ -577,7 +577,8 @@ fn run_prio(prio: &mut Sink, meta: &mut Meta, rng: &mut Rng, fixed: Option<(Vec<
         Some((p, t)) => (p.iter().map(|s| s.to_string()).collect(), t.iter().map(|(n, cs)| (n.to_string(), cs.iter().map(|c| c.to_string()).collect())).collect()),
         None => {
             let mut prefixes: Vec<String> = Vec::new();
-            for _ in 0..rng.below(4) {
+            let np = match rng.below(8) { 0 => 0, 1..=3 => 1, 4..=6 => 2, _ => 3 };
+            for _ in 0..np {
                 let p = rng.pick(&prefix_pool[..]).to_string();
                 if !prefixes.contains(&p) { prefixes.push(p); }
             }
@@ -585,18 +586,38 @@ fn run_prio(prio: &mut Sink, meta: &mut Meta, rng: &mut Rng, fixed: Option<(Vec<
             for _ in 0..(2 + rng.below(4)) {
                 let n = rng.pick(&tpl_pool[..]).to_string();
                 if tpls.iter().any(|(m, _)| *m == n) { continue; }
-                let mut cs: Vec<String> = comp_pool.iter().filter(|_| rng.chance(1, 2)).map(|c| c.to_string()).collect();
+                let mut cs: Vec<String> = comp_pool.iter().filter(|_| rng.chance(2, 5)).map(|c| c.to_string()).collect();
                 if cs.is_empty() && rng.chance(1, 2) { cs.push("Btn".to_string()); }
                 tpls.push((n, cs));
             }
             (prefixes, tpls)
         }
     };
-    let sources: Vec<(String, String)> = tpls
+    // every template that defines a name also CALLS it, so that a call site is observed inside
+    // each defining template, at every priority; `inc_<i>` includes template i
+    let mut sources: Vec<(String, String)> = tpls
         .iter()
-        .map(|(n, cs)| (n.clone(), cs.iter().map(|c| format!("{{% component {c}() %}}{c}@{n}{{% endcomponent %}}")).collect::<String>()))
+        .map(|(n, cs)| {
+            let defs: String = cs.iter().map(|c| format!("{{% component {c}() %}}{c}@{n}{{% endcomponent %}}")).collect();
+            let calls: String = cs.iter().map(|c| format!("|{c}={{{{ <{c} /> }}}}")).collect();
+            (n.clone(), format!("{defs}{calls}"))
+        })
         .collect();
-    let observe = |order: &[usize]| -> Outcome<Vec<(String, String)>> {
+    let n_def = sources.len();
+    for (i, (n, _)) in tpls.iter().enumerate() {
+        sources.push((format!("inc_{i}"), format!("{{% include \"{n}\" %}}")));
+    }
+    type Sites = Vec<(String, String, String, String)>;
+    type Obs = (Vec<(String, String)>, Sites, Vec<(String, String)>);
+    // "|Btn=Btn@comp.html|Card=Card@x" -> the defining template each call ran
+    let parse_calls = |out: &str| -> Vec<(String, String)> {
+        out.split('|').skip(1).filter_map(|part| {
+            let (c, text) = part.split_once('=')?;
+            let (_, tpl) = text.split_once('@')?;
+            Some((c.to_string(), tpl.to_string()))
+        }).collect()
+    };
+    let observe = |order: &[usize]| -> Outcome<Obs> {
         let mut tera = Tera::default();
         if let Err(e) = tera.set_fallback_prefixes(prefixes.clone()) { return Outcome::Err("setup".into(), format!("{e}")); }
         let batch: Vec<(String, String)> = order.iter().map(|&i| sources[i].clone()).collect();
@@ -617,7 +638,37 @@ fn run_prio(prio: &mut Sink, meta: &mut Meta, rng: &mut Rng, fixed: Option<(Vec<
                     }
                 }
                 out.sort();
-                Outcome::Ok(out)
+                // call sites inside each defining template: rendered directly and through an include
+                let mut sites: Sites = Vec::new();
+                for (i, (tn, cs)) in tpls.iter().enumerate() {
+                    if cs.is_empty() { continue; }
+                    let direct = guarded(|| tera.render(tn, &Context::new()));
+                    let incl = guarded(|| tera.render(&format!("inc_{i}"), &Context::new()));
+                    let (Outcome::Ok(d), Outcome::Ok(inc)) = (&direct, &incl) else {
+                        return Outcome::Err("siterender".into(), format!("{tn}: {:?} / {:?}", direct, incl));
+                    };
+                    let (d, inc) = (parse_calls(d), parse_calls(inc));
+                    if d.len() != cs.len() || inc.len() != cs.len() {
+                        return Outcome::Err("siterender".into(), format!("{tn}: unparsable call output"));
+                    }
+                    for (k, c) in cs.iter().enumerate() {
+                        if d[k].0 != *c || inc[k].0 != *c { return Outcome::Err("siterender".into(), format!("{tn}: call order")); }
+                        sites.push((tn.clone(), c.clone(), d[k].1.clone(), inc[k].1.clone()));
+                    }
+                }
+                // a one-off template with its own definition of the name: the global table wins when it has it
+                let mut oneoff = Vec::new();
+                for c in comp_pool {
+                    let src = format!("{{% component {c}() %}}{c}@__local{{% endcomponent %}}|{c}={{{{ <{c} /> }}}}");
+                    match guarded(|| tera.render_str(&src, &Context::new(), false)) {
+                        Outcome::Ok(o) => match parse_calls(&o).pop() {
+                            Some((_, tpl)) => oneoff.push((c.to_string(), tpl)),
+                            None => return Outcome::Err("siterender".into(), format!("one-off {c}: {o}")),
+                        },
+                        other => return Outcome::Err("siterender".into(), format!("one-off {c}: {:?}", other)),
+                    }
+                }
+                Outcome::Ok((out, sites, oneoff))
             }
             Outcome::Err(a, b) => Outcome::Err(a, b),
             Outcome::Panic(m) => Outcome::Panic(m),
@@ -634,23 +685,38 @@ fn run_prio(prio: &mut Sink, meta: &mut Meta, rng: &mut Rng, fixed: Option<(Vec<
         orders.push(o);
     }
     let desc = json!({"prefixes": prefixes, "templates": tpls.iter().map(|(n, cs)| json!([n, cs])).collect::<Vec<_>>(),
-        "impl": r.json(|t| json!(t))});
+        "sources": sources.iter().take(n_def).map(|(n, s)| json!([n, s])).collect::<Vec<_>>(),
+        "impl": r.json(|(t, sites, oneoff)| json!({"table": t, "call_sites_in_defining_templates(template,name,direct,included)": sites, "one_off_with_local_definition": oneoff}))});
+    // oracle (independent of the model): a call written inside a defining template runs what
+    // render_component runs for that name
+    if let Outcome::Ok((t, sites, _)) = &r {
+        for (tn, c, d, inc) in sites {
+            meta.oracle_checks += 1;
+            let want = t.iter().find(|(x, _)| x == c).map(|(_, y)| y.as_str());
+            if want != Some(d.as_str()) || want != Some(inc.as_str()) {
+                meta.oracle_fail("a call site inside a template that defines the name does not run the highest-priority definition", None,
+                    json!({"case": desc, "template": tn, "component": c, "render_component_runs": want, "direct_render_runs": d, "included_render_runs": inc}));
+            }
+        }
+    }
     for o in &orders {
         meta.oracle_checks += 1;
         let r2 = observe(o);
         let same = match (&r, &r2) { (Outcome::Ok(a), Outcome::Ok(b)) => a == b, (Outcome::Err(a, _), Outcome::Err(b, _)) => a == b, _ => false };
         if !same {
-            meta.oracle_fail("component table depends on the registration order", None, json!({"case": desc, "order": o, "other": r2.json(|t| json!(t))}));
+            meta.oracle_fail("component table depends on the registration order", None, json!({"case": desc, "order": o, "other": r2.json(|(t, _, _)| json!(t))}));
         }
     }
-    if matches!(&r, Outcome::Err(k, _) if k == "differ" || k == "setup") || r.is_panic() {
+    if matches!(&r, Outcome::Err(k, _) if k == "differ" || k == "setup" || k == "siterender") || r.is_panic() {
         meta.oracle_fail("prio: API and call site disagree / panic", None, desc.clone());
     }
     let g = format!(
-        "{{| pr_prefixes := {}; pr_tpls := {}; pr_impl := {} |}}",
+        "{{| pr_prefixes := {}; pr_tpls := {}; pr_impl := {}; pr_sites := {}; pr_oneoff := {} |}}",
         gal_list(prefixes.iter().map(|p| gal_str(p)).collect()),
         gal_list(tpls.iter().map(|(n, cs)| format!("({}, {})", gal_str(n), gal_list(cs.iter().map(|c| gal_str(c)).collect()))).collect()),
-        r.gal(|t| gal_list(t.iter().map(|(c, n)| format!("({}, {})", gal_str(c), gal_str(n))).collect()))
+        r.gal(|(t, _, _)| gal_list(t.iter().map(|(c, n)| format!("({}, {})", gal_str(c), gal_str(n))).collect())),
+        match &r { Outcome::Ok((_, sites, _)) => gal_list(sites.iter().map(|(a, b, c, d)| format!("({}, {}, {}, {})", gal_str(a), gal_str(b), gal_str(c), gal_str(d))).collect()), _ => "[]".to_string() },
+        match &r { Outcome::Ok((_, _, o)) => gal_list(o.iter().map(|(a, b)| format!("({}, {})", gal_str(a), gal_str(b))).collect()), _ => "[]".to_string() }
     );
     // non-trivial: some component is defined by at least two templates
     let mut multi = false;
@@ -1150,6 +1216,10 @@ fn main() {
         (vec!["themes/a/"], vec![("comp.html", vec!["Btn"]), ("themes/a/c.html", vec!["Btn"]), ("themes/a/d.html", vec!["Btn"])]),
         (vec!["themes/a/"], vec![("zcomp.html", vec!["Btn"]), ("themes/a/c.html", vec!["Btn"]), ("themes/a/d.html", vec!["Btn"])]),
         (vec!["themes/", "themes/a/"], vec![("themes/a/c.html", vec!["Btn"]), ("themes/c.html", vec!["Btn"])]),
+        // the call site stands in the template that itself holds the LOWER-priority definition
+        (vec!["t/"], vec![("t/x.html", vec!["Btn"]), ("comp.html", vec!["Btn"]), ("t/y.html", vec![])]),
+        (vec!["themes/a/", "themes/b/"], vec![("themes/b/c.html", vec!["Btn", "Card"]), ("themes/a/c.html", vec!["Btn"]), ("a.html", vec!["Card"])]),
+        (vec!["zz/"], vec![("zz/q.html", vec!["ui.x", "Btn"]), ("a.html", vec!["ui.x"])]),
     ];
     for f in fixed { run_prio(&mut prio, &mut meta, &mut rng, Some(f)); }
     for _ in 0..(if thorough { 4_000 } else { 300 }) {
